@@ -14,6 +14,8 @@ quantities of their declared dimensions, Quantity(...) succeeds with that dimens
 """
 from __future__ import annotations
 
+from vp import guard as _guard
+
 import os
 import signal
 from typing import Any
@@ -418,8 +420,8 @@ def _lib_dim(dim: Any, lib: Lib, k: int) -> D.DimVec:
 
 
 def judge(case: dict[str, Any], exclude: frozenset[str] = frozenset(), hang_s: int = 20) -> G.Result:
-    signal.signal(signal.SIGALRM, _alarm)
-    signal.alarm(hang_s)
+    _guard.install(_alarm)
+    _guard.arm(hang_s)
     res = G.Result()
     try:
         _judge(case, res, exclude)
